@@ -1,6 +1,6 @@
 (* OwnProofs.v -- C10-A3: the ownership invariant of the crs::own_data state machine (Own.v)
    holds in every reachable world; consequences: no leak, no double free, no free of
-   borrowed (user) memory.  The historical copy assignment (before /repo 9a9c4a3) leaks. *)
+   borrowed (user) memory.  The historical copy assignment (before /repo b0b02bf) leaks. *)
 From Coq Require Import List Arith Bool Lia.
 From Amgcl Require Import Own.
 Import ListNotations.
@@ -401,7 +401,7 @@ Theorem live_target_ctor_noop fixed w k j u o :
   step_gen fixed w (CopyCtor k j) = w /\ step_gen fixed w (MoveCtor k j) = w.
 Proof. intro H. simpl. rewrite H. auto. Qed.
 
-(* ------------------------------------------------------------------ HISTORICAL: before 9a9c4a3 *)
+(* ------------------------------------------------------------------ HISTORICAL: before b0b02bf *)
 (* operator=(const crs&) left own_data untouched: assigning into a zero-copy view allocated
    three arrays that nobody released.  (This is what the correspondence driver reports when
    the fix is reverted.) *)
